@@ -677,13 +677,13 @@ func legC18Harvest(c *Ctx) {
 		"inputs: strings of length <= 3 over up to four letters taken from the pattern plus newline, and the pattern text itself; non-trivial = reference compiles (distinct by pattern+options)")
 	pats := harvestPatterns("/repo")
 	c.Gate("patterns harvested", len(pats) > 100)
-	if !c.Thorough && len(pats) > 160 {
+	if !c.Thorough && len(pats) > 110 {
 		// a seed-dependent sample in the quick tier
 		for i := len(pats) - 1; i > 0; i-- {
 			j := c.Rng.Intn(i + 1)
 			pats[i], pats[j] = pats[j], pats[i]
 		}
-		pats = pats[:160]
+		pats = pats[:110]
 	}
 	var st c18Stats
 	for _, p := range pats {
